@@ -578,3 +578,348 @@ def r14_tail_continue(src):
         src = _rebuild(src, edit)
         n += 1
     return src, n
+
+
+# --------------------------------------------------------------------------------------
+# log-sink variants of R2 / R3 / R10 (`[unit] log_sink = true`): the text a log event / error context / `write!` is built
+# from is NOT dropped; every VALUE it is built from is handed to a prelude stub (vx/prelude/logsink.rs), so that
+# "what reaches the log" becomes an obligation at the call site. Nothing of the kept code is changed.
+# --------------------------------------------------------------------------------------
+LOG_LEVEL = {"trace": "LEVEL_TRACE", "debug": "LEVEL_DEBUG", "info": "LEVEL_INFO", "warn": "LEVEL_WARN", "error": "LEVEL_ERROR"}
+_EXPR_KEYWORDS = {"return", "let", "in", "if", "else", "match", "while", "for", "loop", "break", "continue", "move", "mut", "ref", "as",
+                  "unsafe", "async", "await", "where", "fn", "pub", "use", "impl", "dyn", "box", "yield"}
+
+
+def _match_open(st, i):
+    """st[i] is a closing bracket; returns the index of its opener."""
+    depth = 0
+    j = i
+    while j >= 0:
+        t = st[j]
+        if t.kind == "punct":
+            if t.text in CLOSE_B:
+                depth += 1
+            elif t.text in OPEN:
+                depth -= 1
+                if depth == 0:
+                    return j
+        j -= 1
+    raise Undecided("unsupported construct: unbalanced bracket in a log-sink receiver")
+
+
+CLOSE_B = {")", "]", "}"}
+
+
+def _str_body(lit):
+    """the characters between the quotes of a string literal token, with escape sequences replaced by a neutral character
+    (only the `{..}` structure of a format string matters here; `\\u{..}` contains braces that are not placeholders)."""
+    m = re.match(r'^(?:b|c)?r(#*)"', lit)
+    if m:
+        return lit[m.end():len(lit) - 1 - len(m.group(1))]
+    body = lit[lit.index('"') + 1:-1]
+    body = re.sub(r"\\u\{[0-9a-fA-F_]*\}", "_", body)
+    return re.sub(r"\\(.|\n)", "_", body, flags=re.S)
+
+
+def fmt_placeholders(fmt):
+    """Placeholders of a `format_args!` string in order of appearance: list of (kind, ref, debug) with kind in
+    'next' (`{}`), 'index' (`{0}`), 'name' (`{ident}` - a named argument or an identifier captured from the scope); width /
+    precision arguments (`{:w$}`, `{:.p$}`, `{:.*}`) are listed too. `{{` and `}}` are escapes. debug: the spec has `?`."""
+    out = []
+    i, n = 0, len(fmt)
+    while i < n:
+        c = fmt[i]
+        if c == "{":
+            if fmt[i + 1:i + 2] == "{":
+                i += 2
+                continue
+            j = fmt.find("}", i)
+            if j < 0:
+                raise Undecided("unsupported construct: unterminated placeholder in a format string")
+            inner = fmt[i + 1:j]
+            arg, _, spec = inner.partition(":")
+            arg = arg.strip()
+            dbg = "?" in spec
+            for m in re.finditer(r"([A-Za-z_]\w*|\d+)\$", spec):
+                out.append(("index" if m.group(1).isdigit() else "name", m.group(1), False))
+            if ".*" in spec:
+                out.append(("next", None, False))
+            if arg == "":
+                out.append(("next", None, dbg))
+            elif arg.isdigit():
+                out.append(("index", arg, dbg))
+            elif re.match(r"^[A-Za-z_]\w*(\.\w+)*$", arg):
+                out.append(("name", arg, dbg))
+            else:
+                raise Undecided(f"unsupported construct: format placeholder {{{inner}}}")
+            i = j + 1
+        elif c == "}":
+            if fmt[i + 1:i + 2] == "}":
+                i += 2
+                continue
+            raise Undecided("unsupported construct: stray `}` in a format string")
+        else:
+            i += 1
+    return out
+
+
+def _expr_text(src, st, a, b):
+    return src[st[a].start:st[b - 1].end]
+
+
+def _is_path(st, a, b):
+    """tokens [a,b) are `x`, `x.y.z`, `self.a.0` or `A::B`"""
+    if a >= b or st[a].kind != "ident":
+        return False
+    k = a + 1
+    while k < b:
+        if st[k].text in (".", "::") and k + 1 < b and st[k + 1].kind in ("ident", "num"):
+            k += 2
+        else:
+            return False
+    return True
+
+
+def fmt_values(src, st, lo, hi, tracing):
+    """st[lo:hi]: the tokens between the parentheses of a formatting macro, the format string being the first literal part
+    (`tracing`: event macro - `target:`/`parent:`/`name:` metadata and `key = value` / `%v` / `?v` fields may precede the
+    message). Returns [(expression text, debug)]: EVERY value the text is built from - positional and named arguments,
+    identifiers captured inline in the format string, structured fields - in order of first use, without duplicates."""
+    parts = [(a, b) for a, b in _split_top(st, lo, hi) if a < b]
+    fields, fmt, pos, named = [], None, [], {}
+    for a, b in parts:
+        if tracing and fmt is None and st[a].kind == "ident" and st[a].text in ("target", "parent", "name") and a + 1 < b and st[a + 1].text == ":":
+            continue
+        if fmt is None and b - a == 1 and st[a].kind == "str":
+            fmt = _str_body(st[a].text)
+            continue
+        eq = None
+        k = a
+        while k < b:
+            if st[k].text in OPEN:
+                k = match_close(st, k)
+            elif st[k].text == "=" :
+                eq = k
+                break
+            k += 1
+        va = eq + 1 if eq is not None else a
+        dbg = False
+        if tracing and va < b and st[va].text in ("%", "?"):
+            dbg = st[va].text == "?"
+            va += 1
+        if va >= b:
+            raise Undecided("unsupported construct: empty argument of a formatting macro")
+        val = _expr_text(src, st, va, b)
+        if not _is_path(st, va, b):
+            val = "(" + val + ")"
+        if fmt is None:
+            if not tracing:
+                raise Undecided("unsupported construct: the format string of a formatting macro is not a string literal")
+            fields.append((val, dbg))
+        elif eq is not None and eq == a + 1 and st[a].kind == "ident":
+            named[st[a].text] = [val, dbg]
+        else:
+            pos.append([val, dbg])
+    vals = list(fields)
+    if fmt is not None:
+        nxt = 0
+        used = set()
+        for kind, ref, dbg in fmt_placeholders(fmt):
+            if kind == "next":
+                idx, nxt = nxt, nxt + 1
+            elif kind == "index":
+                idx = int(ref)
+            else:
+                if ref in named:
+                    vals.append((named[ref][0], dbg)); used.add(ref)
+                else:
+                    vals.append((ref, dbg))          # an identifier captured from the enclosing scope
+                continue
+            if idx >= len(pos):
+                # `{0}` may also address a named argument by position; anything else is not a well-formed call
+                raise Undecided("unsupported construct: format placeholder without a matching argument")
+            vals.append((pos[idx][0], dbg)); used.add(idx)
+        for i, p in enumerate(pos):
+            if i not in used:
+                vals.append((p[0], p[1]))
+        for k, p in named.items():
+            if k not in used:
+                vals.append((p[0], p[1]))
+    seen, out = set(), []
+    for v in vals:
+        if v not in seen:
+            seen.add(v); out.append(v)
+    return out
+
+
+def _pad(orig, rep):
+    """keep the number of lines of the replaced text (so the source line of every later statement is unchanged)"""
+    return rep + "\n" * (orig.count("\n") - rep.count("\n"))
+
+
+def _sink_calls(vals, fn, first):
+    return " ".join(f"{fn + ('_dbg' if dbg else '')}({first}, &{v});" for v, dbg in vals)
+
+
+def r2_log_sink(src):
+    """R2 (log-sink variant): a statement `error!("a {x} b {}", y);` becomes `{ log_arg(LEVEL_ERROR, &x); log_arg(LEVEL_ERROR, &y); }`
+    (`{:?}` values go to `log_arg_dbg`); an event without values is dropped as by R2."""
+    st = sig(lex(src))
+    edits = []
+    i = 0
+    n = 0
+    while i < len(st):
+        t = st[i]
+        if t.kind == "ident" and t.text in LOG_MACROS and i + 2 < len(st) and st[i + 1].text == "!" and st[i + 2].text in OPEN:
+            s = i
+            if i >= 2 and st[i - 1].text == "::" and st[i - 2].text in ("tracing", "log"):
+                s = i - 2
+            prev = st[s - 1].text if s > 0 else "{"
+            k = match_close(st, i + 2)
+            if prev in ("{", "}", ";", "=>"):
+                vals = fmt_values(src, st, i + 3, k, True)
+                end = st[k].end
+                semi = k + 1 < len(st) and st[k + 1].text == ";"
+                if semi:
+                    end = st[k + 1].end
+                if vals:
+                    rep = "{ " + _sink_calls(vals, "log_arg", LOG_LEVEL[t.text]) + " }"
+                else:
+                    rep = "()" if (prev == "=>" and not semi) else ""
+                edits.append((st[s].start, end, _pad(src[st[s].start:end], rep)))
+                n += 1
+                i = k + 1
+                continue
+        i += 1
+    return _rebuild(src, edits), n
+
+
+ERRCTX_LEVEL = {"with_error_context": "LEVEL_ERROR", "with_warn_context": "LEVEL_WARN", "with_info_context": "LEVEL_INFO",
+                "with_debug_context": "LEVEL_DEBUG", "with_trace_context": "LEVEL_TRACE"}
+
+
+def _receiver_start(st, dot):
+    """st[dot] is the `.` of a method call; index of the first token of its receiver (a postfix chain: path, calls, indexing,
+    fields, `?`, a parenthesised expression). Anything else is outside the rule: undecided."""
+    j = dot - 1
+    while j >= 0:
+        t = st[j]
+        if t.text in (")", "]"):
+            j = _match_open(st, j)
+            p = st[j - 1] if j > 0 else None
+            if p is not None and p.text == ">" and st[j].text == "(":
+                d, q = 0, j - 1
+                while q >= 0:
+                    if st[q].text == ">":
+                        d += 1
+                    elif st[q].text == ">>":
+                        d += 2
+                    elif st[q].text == "<":
+                        d -= 1
+                        if d == 0:
+                            break
+                    q -= 1
+                if q < 1 or st[q - 1].text != "::":
+                    raise Undecided("unsupported construct: receiver of an error-context adapter")
+                j = q - 2
+                continue
+            if p is not None and ((p.kind == "ident" and p.text not in _EXPR_KEYWORDS) or p.text in (")", "]", "?")):
+                j -= 1
+                continue
+            return j
+        if t.kind in ("ident", "num") and t.text not in _EXPR_KEYWORDS:
+            if j > 0 and st[j - 1].text in (".", "::"):
+                j -= 2
+                continue
+            return j
+        if t.text == "?":
+            j -= 1
+            continue
+        break
+    raise Undecided("unsupported construct: receiver of an error-context adapter is not a postfix chain")
+
+
+def r3_errctx_sink(src):
+    """R3 (log-sink variant): `RECV.with_error_context(|error| format!("..{error}..{}", a))` is written out as the adapter's
+    defining match (err_trail 0.8.5: on `Err(e)` the text `f(&e)` is logged at the adapter's level, the result is returned unchanged),
+    with the text handed to the log stub value by value:
+    `(match RECV { Ok(v) => Ok(v), Err(e) => { let error = &e; log_arg(LEVEL_ERROR, &error); log_arg(LEVEL_ERROR, &a); Err(e) } })`."""
+    n = 0
+    while True:
+        st = sig(lex(src))
+        edit = None
+        for i, t in enumerate(st):
+            if not (t.kind == "ident" and t.text in ERRCTX_LEVEL and i > 0 and st[i - 1].text == "." and st[i + 1].text == "("):
+                continue
+            close = match_close(st, i + 1)
+            lvl = ERRCTX_LEVEL[t.text]
+            a = i + 2
+            if st[a].text == "move":
+                a += 1
+            if st[a].text == "||":
+                pat, body_lo = None, a + 1
+            elif st[a].text == "|":
+                j = a + 1
+                while st[j].text != "|":
+                    if st[j].text in OPEN:
+                        j = match_close(st, j)
+                    j += 1
+                pat, body_lo = src[st[a + 1].start:st[j - 1].end], j + 1
+            else:
+                raise Undecided(f"unsupported construct: argument of .{t.text} is not a closure literal")
+            blo, bhi = body_lo, close
+            while st[blo].text == "{" and match_close(st, blo) == bhi - 1:
+                blo, bhi = blo + 1, bhi - 1
+            if bhi - 1 > blo and st[bhi - 1].text == ";":
+                raise Undecided(f"unsupported construct: closure of .{t.text} ends in a statement")
+            if st[blo].kind == "ident" and st[blo].text == "format" and st[blo + 1].text == "!" and st[blo + 2].text in OPEN \
+                    and match_close(st, blo + 2) == bhi - 1:
+                vals = fmt_values(src, st, blo + 3, bhi - 1, False)
+            else:
+                vals = [("(" + _expr_text(src, st, blo, bhi) + ")", False)]
+            r0 = _receiver_start(st, i - 1)
+            recv = src[st[r0].start:st[i - 2].end]
+            calls = _sink_calls(vals, "log_arg", lvl)
+            if pat is None:
+                rep = f"(match {recv} {{ Some(__ctx_v) => Some(__ctx_v), None => {{ {calls} None }} }})"
+            else:
+                rep = f"(match {recv} {{ Ok(__ctx_v) => Ok(__ctx_v), Err(__ctx_e) => {{ let {pat} = &__ctx_e; {calls} Err(__ctx_e) }} }})"
+            edit = (st[r0].start, st[close].end, _pad(src[st[r0].start:st[close].end], rep))
+            break
+        if edit is None:
+            break
+        src = _rebuild(src, [edit])
+        n += 1
+    return src, n
+
+
+def r10_fmt_sink(src):
+    """R10 (log-sink variant): `write!(F, "..{}..", a)` / `writeln!` -> `{ fmt_arg(F, &a); fmt_done(F) }` (the formatter records whether a
+    secret-carrying value was written into it); a remaining `format!("..{}..", a)` -> `{ let mut __fmt = Formatter::new(); fmt_arg(&mut __fmt, &a);
+    fmt_string(__fmt) }` (the built string carries a secret iff a part does)."""
+    n = 0
+    while True:
+        st = sig(lex(src))
+        edit = None
+        for i, t in enumerate(st):
+            if t.kind == "ident" and t.text in ("write", "writeln", "format") and i + 2 < len(st) and st[i + 1].text == "!" \
+                    and st[i + 2].text in OPEN and not (i > 0 and st[i - 1].text in (".", "::")):
+                k = match_close(st, i + 2)
+                if t.text == "format":
+                    vals = fmt_values(src, st, i + 3, k, False)
+                    rep = "{ let mut __fmt = Formatter::new(); " + _sink_calls(vals, "fmt_arg", "&mut __fmt") + " fmt_string(__fmt) }"
+                else:
+                    parts = _split_top(st, i + 3, k)
+                    if not parts:
+                        raise Undecided("unsupported construct: write! without a destination")
+                    fa, fb = parts[0]
+                    dest = _expr_text(src, st, fa, fb)
+                    vals = fmt_values(src, st, fb + 1, k, False) if fb + 1 < k else []
+                    rep = "{ " + _sink_calls(vals, "fmt_arg", dest) + f" fmt_done({dest}) }}"
+                edit = (t.start, st[k].end, _pad(src[t.start:st[k].end], rep))
+                break
+        if edit is None:
+            break
+        src = _rebuild(src, [edit])
+        n += 1
+    return src, n
